@@ -229,7 +229,7 @@ def d3_subregion_loops(chk, repo):
             top = outer[-1] if outer else None
             ctx_ = path_term(s_, top.body[0] if st in list(walk_stmts(top.body)) else top.orelse[0]) if top is not None else None
             has = s_.spec("self.subregions is not None")
-            ok = ctx_ is not None and cond_implies(s_, s_.ev._bool("and", [ctx_, has]), pt)
+            ok = ctx_ is not None and implies_reached(s_, s_.ev._bool("and", [ctx_, has]), st)
             chk.ob(f"mesh.Mesh.sel::subregion-loop#{nloops}::always-runs", ok, "C07.D3",
                    f"the loop over the subregions runs under {s_.show(pt)[:200]}: it must run whenever its selection kind is "
                    "handled (subregions are never None)", s_.f, st)
@@ -259,20 +259,19 @@ def d3_mesh_sel(chk, repo):
     chk.ob("mesh.Mesh.sel::plane::kept-axes", oki, "C07.D3", "kept axes must be [i for i in range(ndim) if i != axis]", v.f,
            idxs[0] if idxs else br)
     if oki:
-        j = each(v, v.term(idxs[0].value, at=idxs[0]))
-        loops = [s for s in br.body if isinstance(s, ast.For)]
-        aps = appends(v, loops[0].body) if loops else []
-        want = {"pmin": v.spec("self.region.pmin[j]", env={"j": j}), "pmax": v.spec("self.region.pmax[j]", env={"j": j}),
-                "cell": v.spec("self.cell[j]", env={"j": j}), "dims": v.spec("self.region.dims[j]", env={"j": j}),
-                "units": v.spec("self.region.units[j]", env={"j": j})}
+        J = v.term(idxs[0].value, at=idxs[0])
+        # (a loop that appends to a list is read as the list comprehension it is)
+        want = {"pmin": v.spec("[self.region.pmin[j] for j in J]", env={"J": J}), "pmax": v.spec("[self.region.pmax[j] for j in J]", env={"J": J}),
+                "cell": v.spec("[self.cell[j] for j in J]", env={"J": J}), "dims": v.spec("[self.region.dims[j] for j in J]", env={"J": J}),
+                "units": v.spec("[self.region.units[j] for j in J]", env={"J": J})}
         got = {}
-        for name, s_, tt in aps:
+        for s_, name, tt in simple_assigns(v, br.body):
             for kk, w in want.items():
                 if v.eq(tt, w):
                     got[kk] = name
         chk.ob("mesh.Mesh.sel::plane::per-axis-copies", len(got) == 5 and len(set(got.values())) == 5, "C07.D3",
                f"for every kept axis j the new corners, cell, dim and unit must be those of axis j; matched {sorted(got)}", v.f,
-               loops[0] if loops else br)
+               br)
         # which list feeds which constructor argument
         news = cm.returned_news(v, cls=MESH)
         if news and len(got) == 5:
@@ -626,14 +625,21 @@ def d8_wiring_and_dispatch(chk, repo):
     v = FV(repo, "mesh.Mesh.sel")
     sr = v.ctx.mk(("unpack", 1), (each(v, v.spec("self.subregions.items()")),))
     got = set()
-    for nm, st, t in appends(v, v.stmts()):
-        h = v.ctx.head_of(t)
-        if h and h[0] == "sub":
-            base = v.ctx.args_of(t)[0]
-            if v.eq(base, v.spec("S.pmin", env={"S": sr})):
-                got.add("pmin")
-            if v.eq(base, v.spec("S.pmax", env={"S": sr})):
-                got.add("pmax")
+    # the per-axis lists [S.pmin[j] for j in kept] / [S.pmax[j] ...] (loops that append are read as comprehensions): look
+    # for them among the arguments of the Region constructions
+    for site in v.ctor_sites(REGION):
+        for kw in ("p1", "p2"):
+            t = site.args.get(kw)
+            h = v.ctx.head_of(t) if t is not None else None
+            if h and h[0] == "seqcomp":
+                elt = v.ctx.args_of(t)[0]
+                he = v.ctx.head_of(elt)
+                if he and he[0] == "sub":
+                    base = v.ctx.args_of(elt)[0]
+                    if v.eq(base, v.spec("S.pmin", env={"S": sr})):
+                        got.add("pmin")
+                    if v.eq(base, v.spec("S.pmax", env={"S": sr})):
+                        got.add("pmax")
     chk.ob("mesh.Mesh.sel::plane::subregion-corners", got == {"pmin", "pmax"}, "C07.D8",
            f"kept subregions of a plane selection must copy their pmin[j] and pmax[j] for the kept axes; found {sorted(got)}", v.f)
     f = FV(repo, "field.Field.pad")
